@@ -1,7 +1,11 @@
 (* Decidable form of property C06 (sequential part), applied to what the implementation
    returned for an operation sequence: an interpreter of the FIFO specification that follows
    the observed outputs.  It never calls the model's write / read. *)
-Require Import V.Base.MachineInt V.Generated.GenConsts V.Model.LogBase V.Model.Ring V.Spec.Fifo.
+Require Import V.Base.MachineInt.
+Require Import V.Generated.GenConsts.
+Require Import V.Model.LogBase.
+Require Import V.Model.Ring.
+Require Import V.Spec.Fifo.
 Open Scope Z_scope.
 
 Definition err_eqb (a b : err) : bool :=
